@@ -139,23 +139,56 @@ def main(tier, seed, out):
                 elif len(samples) < 5 and n % 997 == 0:
                     samples.append({'value': repr(v), 'precision': p, 'text': str(ScientificFloat(value=v, unit=unit, precision=p, use_exp_prefix=use_prefix, **({'exp_prefixes': table} if table else {})))})
                 distinct.add((repr(v), p))
-    # complex rendering: signs of both parts, four quadrants
-    for _ in range(200 if tier == 'quick' else 5000):
-        a = rng.choice([-1, 1]) * rng.uniform(1, 10) * 10.0 ** rng.randint(-3, 4)
-        b = rng.choice([-1, 1]) * rng.uniform(1, 10) * 10.0 ** rng.randint(-3, 4)
-        if not (0.01 < abs(a / b) < 100):
-            continue
+    # complex rendering: signs of both parts, four quadrants; every decade in which BOTH parts are inside the representable range
+    # of the helper's prefix table (last displayed digit between the smallest and the largest prefix exponent), any ratio
+    def half_unit(x, p):
+        return 0.5 * 10.0 ** (math.floor(math.log10(abs(x))) - p + 1) * 1.000001
+
+    for printer, unit, lo_e, hi_e, prefixes in ((lambda z: dsp.print_complex(z, unit='V', precision=3), 'V', -6, 3, set('umk')),
+                                                (lambda z: dsp.print_impedance(z, precision=3), 'Ω', -3, 9, set('mkMG'))):
+        mags = list(range(lo_e + 2, hi_e + 3))           # p = 3: last digit exponent = magnitude - 2
+        cases = [(ma, mb) for ma in mags for mb in mags]
+        if tier == 'quick':
+            cases = [c for c in cases if c[0] in (mags[0], mags[-1]) or c[1] in (mags[0], mags[-1]) or rng.random() < 0.3]
+        for ma, mb in cases:
+            for _ in range(2 if tier == 'quick' else 12):
+                a = rng.choice([-1, 1]) * rng.choice([1.0, 5.0, rng.uniform(1, 9.9)]) * 10.0 ** ma
+                b = rng.choice([-1, 1]) * rng.choice([1.0, 5.0, rng.uniform(1, 9.9)]) * 10.0 ** mb
+                n += 1
+                try:
+                    text = printer(complex(a, b))
+                except Exception as ex:
+                    failures.append({'value': repr(complex(a, b)), 'precision': 3, 'what': f'raises {type(ex).__name__}: {ex}', 'kind': 'complex'})
+                    continue
+                m = re.match(r'^(-?) ?([^j]*?) ?([+-]) ?j(.*)$', text)
+                ok = m is not None and ((m.group(1) == '-') == (a < 0)) and ((m.group(3) == '-') == (b < 0))
+                if ok:
+                    ra = parse(m.group(2).strip(), unit, prefixes)
+                    rb = parse(m.group(4).strip(), unit, prefixes)
+                    ok = ra is not None and rb is not None and abs(ra[0] - abs(a)) <= half_unit(a, 3) and abs(rb[0] - abs(b)) <= half_unit(b, 3)
+                if not ok:
+                    failures.append({'value': repr(complex(a, b)), 'precision': 3, 'what': f'complex text {text!r} does not denote both parts of the value', 'kind': 'complex'})
+    # sinusoidal labels: amplitude and frequency (in Hz and in rad/s) carry the requested precision
+    for _ in range(150 if tier == 'quick' else 3000):
+        p = rng.choice([3, 4, 5])
+        amp = rng.uniform(1, 9.99) * 10.0 ** rng.randint(-4, 4)
+        w = rng.uniform(1, 9.99) * 10.0 ** rng.randint(-1, 7)
+        hertz = rng.random() < 0.5
         n += 1
-        text = dsp.print_complex(complex(a, b), unit='V', precision=3)
-        m = re.match(r'^(-?)([^j]*?)([+-])j(.*)$', text)
-        ok = m is not None and ((m.group(1) == '-') == (a < 0)) and ((m.group(3) == '-') == (b < 0))
+        try:
+            text = dsp.print_sinosoidal(complex(amp, 0), unit='V', precision=p, w=w, hertz=hertz)
+        except Exception as ex:
+            failures.append({'value': repr((amp, w)), 'precision': p, 'what': f'print_sinosoidal raises {type(ex).__name__}: {ex}', 'kind': 'sinusoidal'})
+            continue
+        m = re.match(r'^(.*?)·cos\((2π·)?(.*?)·t\)$', text)
+        ok = m is not None and (m.group(2) is not None) == hertz
         if ok:
-            ra = parse(m.group(2), 'V', set('umk'))
-            rb = parse(m.group(4), 'V', set('umk'))
-            ok = ra is not None and rb is not None and abs(ra[0] - abs(a)) <= 0.5 * 10.0 ** (math.floor(math.log10(abs(a))) - 2) * 1.000001 \
-                and abs(rb[0] - abs(b)) <= 0.5 * 10.0 ** (math.floor(math.log10(abs(b))) - 2) * 1.000001
+            ra = parse(m.group(1), 'V', set('umk'))
+            f = w / 2 / math.pi if hertz else w
+            rf = parse(m.group(3), 'Hz' if hertz else '/s', set('mkMGT') if hertz else set())
+            ok = ra is not None and rf is not None and abs(ra[0] - amp) <= half_unit(amp, p) and abs(rf[0] - f) <= half_unit(f, p)
         if not ok:
-            failures.append({'value': repr(complex(a, b)), 'precision': 3, 'what': f'complex text {text!r} does not denote the value', 'kind': 'complex'})
+            failures.append({'value': repr((amp, w)), 'precision': p, 'what': f'sinusoidal text {text!r} (hertz={hertz}) does not carry amplitude and frequency with {p} digits', 'kind': 'sinusoidal'})
     # saturation beyond the exponent range
     for v in (1e20, -3e21, 2.5e25):
         n += 1
